@@ -1,5 +1,7 @@
 """Symbolic executor over the real AST: one run = one path; forks re-execute (decision traces)."""
 import ast
+import os
+import re
 import itertools
 
 import z3
@@ -118,6 +120,7 @@ def sort_key(sort):
 
 # write sets of loop bodies, collected by a first exploration of all paths (run.verify_function): a heap map that no path
 # through a loop body writes keeps its value across the loop, also for objects the function itself allocated
+UPWARD = os.environ.get("PYVC_UPWARD", "1") == "1"
 LOOP_MODE = ["use"]
 LOOP_WRITES = {}
 
@@ -209,6 +212,14 @@ class Ex:
         if not z3.is_const(m) and not getattr(self, "binder_depth", 0) and not getattr(self, "pure_depth", 0):
             c = self.fresh(f"H_{field}_v", m.sort())
             self.pc.append(c == m)
+            if UPWARD and field.startswith(("$it", "$len", "$d")) and z3.is_app(m) and m.decl().kind() == z3.Z3_OP_STORE \
+                    and z3.is_const(m.arg(0)):
+                # reads of the previous version carry over to the new one (for every other object): the array theory only walks from
+                # a store *down* to its base, so a term about an untouched list in the old version would otherwise never meet the
+                # quantifiers and goals stated over the new version
+                o = z3.Const(f"up_o?{next(self.cnt)}", REF)
+                self.pc.append(z3.ForAll([o], z3.Implies(o != m.arg(1), c[o] == m.arg(0)[o]), patterns=[m.arg(0)[o]],
+                                         qid=f"upward_{re.sub(r'[^A-Za-z0-9_]', '_', field)}"))
             m = c
         self.heap[(field, sort_key(sort))] = m
 
@@ -258,6 +269,9 @@ class Ex:
         self.alloc = na
         if cname:
             self.assume(typeof(r) == class_id(cname))
+        if (None, "$wowner") in spec.FIELD_TYPES:
+            # ghost reference fields of a new object have their default value (None) until a ghost statement sets them
+            self.assume(self.hmap("$wowner", REF)[r] == 0)
         return r
 
     def good_heap(self):
@@ -366,6 +380,10 @@ class Ex:
             return Val(ty, z3.ToReal(v.t))
         if k == "any":
             return v
+        if k == "ext" and vk == "cls":
+            return Val(ty, z3.IntVal(500000 + class_id(v.name)), meta=dict(cls_value=v.name))    # a class object used as a factory value
+        if k == "ref" and vk == "emptydict" and ty.cls and ty.cls.startswith("$"):
+            return Val(ty, self.new_obj("emptymap", ty.cls))       # `{}` where an external mapping object is expected
         if k == "rec" and vk == "emptydict":
             # `{}` stored where a record dict (literal string keys) is expected: a new record without any of the declared keys
             r = self.new_obj("rec")
@@ -1448,6 +1466,9 @@ class Ex:
                 bound[kwn.arg] = self.ev(d, Frame(_ModFi(fi.module), {}, None))
         if "**" in kwargs:
             bound["$starkw"] = kwargs["**"]
+        if a.kwarg is not None:
+            # **kwargs: the extra keyword arguments as a dictionary value with statically known keys
+            bound[a.kwarg.arg] = Val(Ty("kwdict"), None, meta=dict(items=dict(bound.pop("$kwargs", {}))))
         return bound
 
     def call_function(self, fi, self_val, args, kwargs, fr, node, static=False, env=None):
